@@ -342,6 +342,8 @@ func (p *Prog) restoreVerifiedRule(r *Report, a *stepAnchors, rule string) {
 func checkC32(p *Prog, r *Report) {
 	r.Explanation = "Structural necessary conditions of crash safety: the records later builds trust are written last and read defensively. (1) commit order in buildTarget: the call that writes the hash record (calculateAndCheckRuleHash -> writeRuleHash) after an action ran is dominated by moveOutputs with a nil error, which is dominated by StoreTargetMetadata with a nil error; on the cache path writeRuleHash is under retrieveArtifacts()==true. (2) inside calculateAndCheckRuleHash, writeRuleHash is dominated by a successful OutputHash. (3) writeRuleHash propagates every RecordAttr error. (4) fs.WriteFile: the destination is touched only by the final rename, which is dominated by nil errors of io.Copy, Close and Chmod on the temp file, and the temp file is created in the destination's directory (same filesystem, so the rename is atomic). (5) the reader: the record must be present and identical on every output or it is empty (shared with C01); the up-to-date predicate requires the metadata file. (6) needsBuilding is evaluated before anything is removed or prepared."
 	r.NotCovered = []string{"torn xattr writes or renames inside the kernel", "the cross-device copy fallback of renameFile (non-atomic, noted)", "SIGKILL timing itself", "StoreTargetMetadata is not atomic (a torn metadata file is only read when the record matches; noted in DESIGN.md)"}
+	p.nothingMovedAfterRecord(r)
+	p.fallbackCopyIsAtomic(r)
 	a := p.step(r, "E5.commit-order")
 	if a == nil {
 		return
@@ -771,6 +773,9 @@ func checkC35(p *Prog, r *Report) {
 			r.unresolved(rule, "buildTarget call in build.Build")
 		}
 	}
+	// which algorithms may verify a declared hash is configuration: a restriction set in a config file must survive reading
+	importRules(p, r, checkC39, "config/", "E5.defaults-after-files")
+	p.hashCommandCleans(r)
 	// (4b) what a failed build removes is what the up-to-date test looks at: all outputs, named groups included
 	{
 		okAcc := false
@@ -948,4 +953,112 @@ func (p *Prog) outputHashRecalcRule(r *Report, a *stepAnchors, rule string) {
 	if nH < 2 {
 		r.unresolved(rule, "PathHasher.Hash calls in outputHash")
 	}
+}
+
+// nothingMovedAfterRecord: the rule-hash record is what makes the next invocation skip the target, so it is written
+// after the last output (optional ones included) is in place: nothing that moves files into the output directory runs
+// after calculateAndCheckRuleHash in buildTarget.
+func (p *Prog) nothingMovedAfterRecord(r *Report) {
+	rule := "E5.commit-order"
+	bt := p.Fn("build", "buildTarget")
+	calc := p.Fn("build", "calculateAndCheckRuleHash")
+	mo := p.Fn("build", "moveOutput")
+	if bt == nil || calc == nil || mo == nil {
+		r.unresolved(rule, "build.buildTarget / calculateAndCheckRuleHash / moveOutput")
+		return
+	}
+	moves := func(g *ssa.Function) bool {
+		for _, h := range p.closure([]*ssa.Function{g}, 2, inRepoPkgs("build")) {
+			if h == mo {
+				return true
+			}
+		}
+		return false
+	}
+	late := ""
+	for _, cc := range callsInFn(bt, calc) {
+		eachInstr(bt, false, func(_ *ssa.Function, i ssa.Instruction) {
+			c := callCommon(i)
+			if c == nil || c.StaticCallee() == nil || c.StaticCallee() == calc || !moves(c.StaticCallee()) {
+				return
+			}
+			if existsPath(bt, cc, i, nil) {
+				late = calleeName(c)
+			}
+		})
+	}
+	r.check(late == "", rule, "no output is moved into place after the rule hash was recorded", p.pos(bt.Pos()), fnName(bt), "nothing reachable after calculateAndCheckRuleHash calls moveOutput", "buildTarget moves outputs ("+late+") after calculateAndCheckRuleHash has written the record: a process killed in between leaves metadata, matching records and all declared outputs, so the next build reports the target as up to date while an optional output is stale or missing")
+}
+
+// fallbackCopyIsAtomic: when a hard link cannot be made, the copy that replaces it goes through CopyFile/WriteFile (temp
+// file + rename): the non-atomic copyFile helper and bare os.Create are not reachable from the tree-copy functions.
+func (p *Prog) fallbackCopyIsAtomic(r *Report) {
+	rule := "E5.atomic-write"
+	col := p.Fn("fs", "CopyOrLinkFile")
+	raw := p.Fn("fs", "copyFile")
+	if col == nil {
+		r.unresolved(rule, "fs.CopyOrLinkFile")
+		return
+	}
+	bad := ""
+	eachInstr(col, false, func(_ *ssa.Function, i ssa.Instruction) {
+		c, ok := i.(*ssa.Call)
+		if !ok {
+			return
+		}
+		if (raw != nil && callsFn(c, raw)) || isCallTo(c, "os.Create", "os.WriteFile") {
+			bad = calleeName(&c.Call)
+		}
+	})
+	r.check(bad == "", rule, "CopyOrLinkFile's fallback copy goes through the atomic write helper", p.pos(col.Pos()), fnName(col), "no call of copyFile / os.Create / os.WriteFile", "when the hard link fails CopyOrLinkFile copies with "+bad+", which creates or truncates the destination in place: a kill mid-copy leaves a partial file under the final name, and an existing destination that is hard-linked elsewhere (a cache artifact, a linked source) is overwritten through the link")
+}
+
+// hashCommandCleans: in `plz hash` mode a mismatch of declared hashes is only logged, the record is written and the
+// outputs are cached; the command handler then either rewrites the declared hashes (--update) or cleans the targets
+// again so that nothing unverified stays marked up to date. Every successful path of the handler passes one of the two.
+func (p *Prog) hashCommandCleans(r *Report) {
+	rule := "E5.hash-accept-conditions"
+	rw := p.Fn("hashes", "RewriteHashes")
+	ct := p.Fn("clean", "Targets")
+	if rw == nil || ct == nil {
+		r.unresolved(rule, "hashes.RewriteHashes / clean.Targets")
+		return
+	}
+	var handler *ssa.Function
+	for _, f := range p.allFuncs {
+		if fnPkg(f) == modPath+"/src" && len(callsInFn(f, rw)) > 0 {
+			handler = f
+		}
+	}
+	if handler == nil {
+		r.unresolved(rule, "the `hash` command handler in package main")
+		return
+	}
+	isFix := func(j ssa.Instruction) bool { return callsFn(j, rw) || callsFn(j, ct) }
+	// from every block that is under the "build succeeded" fact (the first call result tested), no return without a fix
+	skip := false
+	for _, ci := range callsInFn(handler, rw) {
+		_ = ci
+	}
+	var rb *ssa.Call
+	eachInstr(handler, false, func(_ *ssa.Function, i ssa.Instruction) {
+		if c, ok := i.(*ssa.Call); ok && c.Call.StaticCallee() != nil && c.Call.StaticCallee().Name() == "runBuild" && rb == nil {
+			rb = c
+		}
+	})
+	if rb == nil {
+		r.unresolved(rule, "runBuild call in the hash handler")
+		return
+	}
+	for _, b := range handler.Blocks {
+		for _, f := range condFacts(b) {
+			if e, ok := f.V.(*ssa.Extract); ok && e.Tuple == ssa.Value(rb) && e.Index == 0 && f.Val && len(b.Instrs) > 0 {
+				if !isFix(b.Instrs[0]) && existsPath(handler, b.Instrs[0], nil, isFix) {
+					// only count blocks that are the entry of the success region (their idom is outside it)
+					skip = true
+				}
+			}
+		}
+	}
+	r.check(!skip, rule, "`plz hash` either rewrites the declared hashes or cleans the targets again", p.pos(handler.Pos()), fnName(handler), "after a successful build every path of the handler passes RewriteHashes or clean.Targets", "the `hash` command can finish (e.g. with --detailed) without rewriting hashes and without cleaning the targets it built: in hash mode a mismatch is only logged while the rule-hash record is written and the outputs are cached, so a following `plz build` finds outputs that do not match their declared hashes marked up to date and exits 0")
 }
